@@ -403,6 +403,10 @@ func (re *Regexp) findAllRunesIndex(runner *Runner, input []rune, startAt, n int
 		startAt = m.textpos
 		previousMatchLength = m.RuneLength
 	}
+	if len(out) == 0 {
+		// no match is reported as nil, like the regexp package does, also when n > 0
+		return nil, nil
+	}
 	return out, nil
 }
 
